@@ -133,6 +133,12 @@ pub fn run_case(c: &Case, ctx: &mut Ctx) -> CaseResult {
         dim = width;
         for row in 0..width {
             let act = ls.acts.get(row).unwrap_or(&Act::None);
+            // size caps: exact rational LP on rounded (53-bit) coefficients is expensive, so
+            // float-regime networks get at most 4 activated neurons, exact ones at most 8
+            let cap = if exact { 8 } else { 4 };
+            if activated >= cap {
+                break;
+            }
             if let Some(s) = act_schema(act, 0) {
                 // rebuild with the right row selector
                 let s = match s {
